@@ -574,7 +574,7 @@ class reactive_ops:
         else:
             def apply(vs, *args, **kwargs):
                 return [func(v, *args, **kwargs) for v in vs]
-        return self._as_rx()._apply_operator(apply, *args, **kwargs)
+        return self._as_rx()._apply_function(apply, args, kwargs)
 
     def not_(self) -> 'rx':
         """
@@ -697,7 +697,7 @@ class reactive_ops:
         >>> rx_result.rx.value
         30
         """
-        return self._as_rx()._apply_operator(func, *args, **kwargs)
+        return self._as_rx()._apply_function(func, args, kwargs)
 
     def resolve(self, nested=True, recursive=False) -> 'rx':
         """
@@ -1827,6 +1827,18 @@ class rx:
             'args': args,
             'kwargs': kwargs,
             'reverse': reverse
+        }
+        return new._clone(operation)
+
+    def _apply_function(self, func, args, kwargs) -> 'rx':
+        # Like _apply_operator for a user function: all the keywords are the
+        # function's own (also one called 'reverse' or 'operator')
+        new = self._resolve_accessor()
+        operation = {
+            'fn': func,
+            'args': tuple(args),
+            'kwargs': dict(kwargs),
+            'reverse': False
         }
         return new._clone(operation)
 
